@@ -132,7 +132,7 @@ func TestVerifC04(t *testing.T) { c04Main(t, "C04") }
 func c04Main(t *testing.T, id string) {
 	r := zv.Start(t, id)
 	defer r.Finish()
-	const perGroup = 120
+	const perGroup = 50
 	totalEv := 0
 	var g, gf *zv.Group
 	ng := 0
@@ -192,7 +192,7 @@ func c04Main(t *testing.T, id string) {
 		record(w, w.run(h))
 	}
 	root := r.Rand()
-	n := r.N(700, 30000)
+	n := r.N(300, 30000)
 	for i := 0; i < n; i++ {
 		rng := root.Fork(uint64(i))
 		h := c04Hist{Range: uint64(1 + rng.Intn(4)), Limit: 1 + rng.Intn(3), Table: c04Tables[rng.Intn(len(c04Tables))], Final: true}
@@ -200,7 +200,7 @@ func c04Main(t *testing.T, id string) {
 			h.Limit = 4
 		}
 		w := c04NewWorld(r, h)
-		w.full = i < 24
+		w.full = i < 10
 		length := 15 + rng.Intn(60)
 		aborted := func() (ab string) {
 			defer func() {
